@@ -230,7 +230,11 @@ def main(root, args):
             if sig not in known_sigs and not any(f["signature"] == sig for f in unknown_fail):
                 unknown_fail.append({"signature": sig, "oracle": "?", "case": "?", "input": "", "detail": "see harness result"})
         if unknown_fail:
-            violations.append(("failing-input", {"failures": unknown_fail[:5]}))
+            by_sig = {}
+            for f in unknown_fail:
+                by_sig.setdefault(f["signature"], f)
+            violations.append(("failing-input", {"failures": list(by_sig.values())[:25],
+                                                 "signature_counts": {k: v for k, v in (res.get("failure_signatures") or {}).items() if k not in known_sigs}}))
         mism = [m for m in (res.get("mismatches") or []) if m.get("signature") not in known_sigs]
         for m in (res.get("mismatches") or []):
             if m.get("signature") in known_sigs:
